@@ -118,6 +118,15 @@ CLAIMS = {
         'found this way were repaired in /repo; one is recorded as a known finding.',
    note='Trusted: Coq kernel/vm_compute; hand model StrRepr.v tied by correspondence (model output == real output symbol by symbol, model reader == ast.literal_eval on the same literals); CPython parser as reference. No axioms.',
    design='DESIGN.md section 4 C08'),
+ 'C07': dict(
+   technique='Coq proof: cut-then-put-back identity on line lists, character-faithful copy under the position shift, dedent removes white space only / indent-dedent inverse; trace correspondence with _dedent_lns, _indent_lns, _make_fst_and_dedent; copy/cut/delete differential oracle with token and comment conservation',
+   text='Proved (closed): for every text and valid span, re-inserting the cut lines at the cut point gives back exactly the original line list; every character of the span is found in the copy at the '
+        'shifted position used for node offsets; per-line dedent strips leading white space only, by the reported amount, and is inverted by indent on any line set. Partial: choice of copy/delete '
+        'spans (trivia, separators), _fix_copy and AST cloning are decided on the real implementation: copy/get/get_slice leave source and ast.dump(with positions) untouched, the piece verifies and '
+        're-parses to itself and equals the original elements, cut == copy + delete on fresh trees, code tokens conserved up to separators and comments conserved exactly. Two comment-loss defects '
+        'are recorded as known findings.',
+   note='Trusted: Coq kernel/vm_compute; hand models Extract.v/Text.v tied by trace correspondence; tokenize and the CPython parser as reference. No axioms.',
+   design='DESIGN.md section 4 C07'),
 }
 
 checks = []
